@@ -349,3 +349,13 @@ package common
 //@   trusted   -- provisional (C03): uses the argument as workspace
 //@   modifies elems(hashes)
 //@   ensures result == txRootOf(old(arr(hashes)), off(hashes), len(hashes))
+
+//@ func (*ZeroCopySource).NextString
+//@   property C01
+//@   modifies self.off
+//@   ensures eof <==> (old(remaining(self)) == 0 || old(remaining(self)) < varsizeAt(old(self.s), old(self.off)) || old(remaining(self)) - varsizeAt(old(self.s), old(self.off)) < varuintAt(old(self.s), old(self.off)))
+//@   ensures !eof ==> uint64(len(data)) == varuintAt(old(self.s), old(self.off)) && self.off == old(self.off) + varsizeAt(old(self.s), old(self.off)) + uint64(len(data))
+
+//@ func AddressParseFromBytes
+//@   property C04
+//@   ensures len(f) != 20 ==> r1 != nil
